@@ -153,6 +153,20 @@ static uint32_t run_scenario(int s, int slot, int second) {
     uint32_t pts = W.fp.npoints; if (W.fp.took_effect || W.iface[0].fail || W.host.fail) effective++;
     plan_clear();
     evals++;
+    /* the fault has cleared: requests that arrive now are not "the affected request" - whatever they make the
+     * responder transmit must be completely well-formed again (own address as source, within the MTU) */
+    {
+        pev sfx[3] = { ev_discover(0, ST_M1, ST_M1, 0x4321, 9), ev_query(0, ST_M1, ST_M1, 0x0a0a), ev_qlt(0, ST_M1, ST_M1, 0x0b0b, 0x0E, 0) };
+        for (int k = 0; k < 3; k++) {
+            vf_trace_clear(); drv_linux(&sfx[k], 0);
+            for (int j = 0; j < tr_sends(); j++) {
+                const vf_trec *t = tr_send(j); wd_frame f;
+                if (wd_decode(tr_bytes(t), t->len, &f)) { vf_violation("faults:after-fault-cleared:undecodable", "scenario under [%s]; after the fault cleared a request is answered with %u undecodable bytes", what, t->len); continue; }
+                const char *why = wd_wellformed(&f, W.iface[0].mac, W.iface[0].mtu);
+                if (why) { char sig[120]; snprintf(sig, sizeof sig, "faults:after-fault-cleared:%s", why); char nm[140]; pev_name(&sfx[k], nm, sizeof nm); vf_violation(sig, "scenario under [%s]; the fault has cleared, yet %s is answered with a frame (opcode 0x%02x, %u bytes) that is not well-formed: %s", what, nm, f.opcode, t->len, why); }
+            }
+        }
+    }
     /* faults are over: a topology Reset must leave nothing but the per-interface record */
     vf_trace_clear();
     pev rs = ev_reset(0, ST_M1); drv_linux(&rs, 0);
